@@ -118,3 +118,10 @@ claim(
     "Trusted: python ast, bfsa, bfsa.constaudit (DER reader, EC arithmetic, P-256 parameters written from FIPS 186-4), spec/published_keys.json (pinned values).",
     "DESIGN.md section 4, C09",
 )
+claim(
+    "C19", "other",
+    "exception-escape analysis of the ECC library's decoders with Fourier-Motzkin discharge of index and assertion obligations; sibling rule over the DER remove_* primitives; remainder-provenance rule for trailing data; constant audit of OIDs and the 27-byte header; encoder/decoder prefix agreement",
+    "Decides: for the DER primitives, VerifyingKey / SigningKey .from_der / .from_pem / .from_string, Curve.from_der and PointJacobi.from_bytes every escaping exception class is defined in the ecdsa package or is a ValueError (explicit raises, asserts and implicit raisers; index and assertion obligations discharged by linear entailment from length guards, slice-length definitions and floor-division axioms); each remove_* rejects empty input before indexing and compares the announced length with the bytes available; the remainder after the outer structure of a decoder's input is checked empty, a raw-length point inside DER is rejected, other remainders are parsed further, checked, or belong to a documented optional ASN.1 tail; id-ecPublicKey, the prime-field OID and the 19 curve OIDs equal the registered pinned values and are unique, the 27-byte P-256 header is the exact SubjectPublicKeyInfo prefix; compressed / hybrid / uncompressed prefixes written by the encoders are the ones the decoders accept with the same parity convention. OpenSSL byte compatibility and executed round trips are not decided.",
+    "Trusted: python ast, bfsa (EXC, FACTS/Fourier-Motzkin), spec/oids.json, spec/discharge.json. numbertheory and point arithmetic summarised as raising only numbertheory.Error; arithmetic treated as total (p = 0 in explicit parameters is a recorded blind spot); Edwards paths excluded.",
+    "DESIGN.md section 4, C19",
+)
